@@ -1,6 +1,7 @@
 """C08 — prediction is a pure, row-wise arg-max.  Oracle on the implementation:
 permutation / batching / repetition relations, snapshot before == after,
-recomputed arg-max from the public activation function, range of outputs.  Tie:
+recomputed arg-max from the public activation function (also on rows a hair away from a decision boundary and on
+runs of consecutive floats across it: exact ties and one-ulp leads), range of outputs.  Tie:
 Lean `predict` (incl. the SimpleARTMAP map) end-to-end on exact kernels."""
 from __future__ import annotations
 
@@ -171,6 +172,7 @@ def run(ctx):
     negative_activations(ctx)
     tiny_covariance(ctx)
     near_boundary(ctx)
+    ulp_near_ties(ctx)
     e2e.base_histories(ctx, "C08", ctx.scale(150, 3000), ctx.scale(20, 80), fields=("labels",))
     e2e.smap_histories(ctx, "C08", ctx.scale(100, 2000), ctx.scale(16, 60))
 
@@ -418,3 +420,226 @@ def near_boundary(ctx):
                 break
         cov.hit(f"near-boundary:{'hosted' if owner is not est else 'bare'}")
         cov.case(("boundary", name, fam.spec, desc["rows"], [s["t_lo"] for s in segs]), newer_side)
+
+
+# classes whose activation passes through exp / sqrt / division (the probabilistic kernels weigh it with the share
+# n_j / sum n of the samples each category absorbed) come up more often than the piecewise-linear ones
+ULP_CLASSES = ["GaussianART", "BayesianART", "HypersphereART", "GaussianART", "BayesianART", "EllipsoidART", "GaussianART",
+               "BayesianART", "QuadraticNeuronART", "GaussianART", "FuzzyART"]          # 11 and 6 hosts: all pairs in 66 cases
+ULP_HOSTS = ["bare", "SimpleARTMAP", "bare", "SimpleARTMAP", "ARTMAP", "DualVigilanceART"]
+ULP_EACH_SIDE = 100          # first segment of a model
+ULP_EACH_SIDE_MORE = 16      # its further segments
+ULP_SEGMENTS = 6
+ULP_BUDGET = 3000
+ULP_TOTALS = [3, 5, 6, 7, 9, 10, 11, 12, 13, 4, 8]         # mostly NOT a power of two
+
+
+def _ulp_walk(v, steps, towards):
+    out = []
+    for _ in range(steps):
+        v = float(np.nextafter(v, towards))
+        out.append(v)
+    return out
+
+
+def _ulp_trained(r, cls, host):
+    """one draw: (spec, replay, d, estimator, deciding module, label of a category, end points, their winners, pairs of
+    end points with different winners), or the reason why this draw has no decision boundary"""
+    from .. import specs
+    from ..impl import make
+    d = r.choice([1, 1, 1, 2, 3])
+    sp = specs.elem_spec(r, cls, d)
+    # vigilance on the side that founds several categories
+    if cls == "GaussianART":
+        sp["rho"] = r.choice([0.5, 0.75, 0.9375, 1.0])
+    elif cls == "BayesianART":
+        sp["rho"] = r.choice([2.0 ** -12, 2.0 ** -6, 0.0625]) ** d
+    elif sp.get("rho", 1.0) < 0.5:
+        sp["rho"] = r.choice([0.5, 0.75, 0.875])
+    n = r.choice(ULP_TOTALS)
+    X = specs.elem_data(r, cls, n, d, floats=r.random() < 0.4)
+    if r.random() < 0.5 and n >= 3:
+        # repeated rows: the categories absorb different numbers of samples
+        for _ in range(r.randint(1, n // 2)):
+            X[r.randrange(n)] = X[r.randrange(n)]
+    if host == "bare":
+        spec = sp
+    elif host == "SimpleARTMAP":
+        spec = {"cls": "SimpleARTMAP", "module_a": sp}
+    elif host == "ARTMAP":
+        spec = {"cls": "ARTMAP", "module_a": sp, "module_b": specs.elem_spec(r, "FuzzyART", 1)}
+    else:
+        spec = {"cls": "DualVigilanceART", "base_module": sp, "rho_lower_bound": r.choice([0.0, 0.125, 0.25])}
+    y = None
+    if host == "SimpleARTMAP":
+        y = gen.labels(r, n, r.randint(2, 4))
+    elif host == "ARTMAP":
+        y = specs.elem_data(r, "FuzzyART", n, 1, style="coarse")
+    rep = {"spec": spec, "X": X.tolist(), "y": None if y is None else y.tolist()}
+    try:
+        est = make(spec)
+        with quiet():
+            est.fit(X) if y is None else est.fit(X, y)
+    except Exception as e:
+        return f"train-raised:{exc_enum(e)}"
+    owner, label_of = _nb_owner(host, est)
+    if len(owner.W) < 2:
+        return "fewer-than-two-categories"
+    P = np.vstack([X, specs.elem_data(r, cls, 6, d, floats=r.random() < 0.5)])
+    with quiet():
+        win = [_nb_first_argmax(_nb_acts(owner, x)) for x in P]
+    pairs = [(a, b) for a in range(len(P)) for b in range(len(P))
+             if win[a] is not None and win[b] is not None and win[a] != win[b]]
+    if not pairs:
+        return "all-rows-one-winner"
+    return spec, rep, d, est, owner, label_of, P, win, pairs
+
+
+def ulp_near_ties(ctx):
+    """query rows on which the two best activations are EQUAL or ONE ULP APART.  A model with >= 2 categories (bare, or
+    as A-side of SimpleARTMAP / ARTMAP, or as base module of DualVigilanceART; total number of absorbed samples mostly
+    not a power of two, unequal shares) is trained; two rows with different winners are joined by a segment and
+    bisection on the public activation function finds two neighbouring floats with different winners (as in
+    `near_boundary`).  Then EVERY one of the ~100 consecutive floating-point numbers on each side of that boundary is
+    a query row (16 on each side for up to five further boundaries of the same model): consecutive floats of the
+    coordinate itself for 1-d data (in higher dimension: of one coordinate of the boundary point, chosen at random, or
+    of the segment parameter).  Around the
+    crossing the two leading activations move by about one unit in the last place per step, so the scan holds rows with
+    an exact tie, rows where the leader is ahead by a single ulp, and both orders of age.  Each row must receive the
+    label of the OLDEST category of MAXIMAL activation, the activation being what the public `category_choice`
+    returns: a lead of one ulp is a lead, and an exact tie goes to the older category.  predict must also leave the
+    stored weights bit-identical."""
+    cov = ctx.cov
+    for i in range(ctx.scale(66, 1320)):
+        r = gen.rng_for(ctx.seed, "C08-ulp", i)
+        cls = ULP_CLASSES[i % len(ULP_CLASSES)]
+        host = ULP_HOSTS[i % len(ULP_HOSTS)]
+        if host == "DualVigilanceART" and cls == "BayesianART":
+            host = "bare"
+        sig = f"{host}({cls})"
+        # up to three draws of (hyper-parameters, training rows) for a model with two different winners
+        got = None
+        for attempt in range(3):
+            got = _ulp_trained(r, cls, host)
+            if isinstance(got, tuple):
+                break
+            cov.hit(f"ulp-scan:{got}:{cls}")
+        if not isinstance(got, tuple):
+            cov.case(("ulp", sig, i), False)
+            continue
+        spec, rep, d, est, owner, label_of, P, win, pairs = got
+        # several segments, between different pairs of winners where there are that many
+        r.shuffle(pairs)
+        chosen, seen_pairs = [], set()
+        for a, b in pairs:
+            key = frozenset((win[a], win[b]))
+            if key not in seen_pairs:
+                seen_pairs.add(key)
+                chosen.append((a, b))
+            if len(chosen) == ULP_SEGMENTS:
+                break
+        # further crossings of pairs of winners already taken (another place of the same boundary in dimension > 1)
+        for a, b in pairs:
+            if len(chosen) >= ULP_SEGMENTS or len(P[a]) == 1:
+                break
+            if (a, b) not in chosen:
+                chosen.append((a, b))
+        Qs, segs = [], []
+        for s_no, (a, b) in enumerate(chosen):
+            each_side = ULP_EACH_SIDE if s_no == 0 else ULP_EACH_SIDE_MORE
+            xa, xb = P[a], P[b]
+            lo_box, hi_box = np.minimum(xa, xb), np.maximum(xa, xb)
+
+            def at(t):
+                return np.clip((1.0 - t) * xa + t * xb, lo_box, hi_box)
+            lo, hi = 0.0, 1.0
+            with quiet():
+                for _ in range(64):
+                    mid = 0.5 * (lo + hi)
+                    if mid <= lo or mid >= hi:
+                        break
+                    if _nb_first_argmax(_nb_acts(owner, at(mid))) == win[a]:
+                        lo = mid
+                    else:
+                        hi = mid
+            # FuzzyART rows are complement coded: the raw coordinate and its complement move together
+            raw = len(xa) // 2 if cls == "FuzzyART" else len(xa)
+            axis = r.randrange(raw)     # walking along an axis nearly parallel to the boundary keeps many rows near the tie
+            by_coordinate = raw == 1 or r.random() < 0.5
+            if by_coordinate:
+                x0 = at(lo)
+                v0 = float(x0[axis])
+                vs = _ulp_walk(v0, each_side, -np.inf)[::-1] + [v0] + _ulp_walk(v0, each_side, np.inf)
+                vs = [v for v in vs if lo_box[axis] <= v <= hi_box[axis]]
+                Q = np.repeat(x0[None, :], len(vs), axis=0)
+                Q[:, axis] = vs
+                if cls == "FuzzyART":
+                    Q[:, raw + axis] = 1.0 - Q[:, axis]
+                cov.hit("ulp-scan:consecutive-floats-of-a-coordinate" + (":1-d" if raw == 1 else ""))
+            else:
+                ts = _ulp_walk(lo, each_side, -np.inf)[::-1] + [lo] + _ulp_walk(lo, each_side, np.inf)
+                Q = np.array([at(t) for t in ts if 0.0 <= t <= 1.0])
+                cov.hit("ulp-scan:consecutive-floats-of-the-segment-parameter")
+            segs.append({"from": xa.tolist(), "to": xb.tolist(), "t_lo": lo, "t_hi": hi, "rows": len(Q),
+                         "scan": "coordinate %d" % axis if by_coordinate else "segment parameter"})
+            Qs.append(Q)
+            # quick-tier budget in evaluations of the activation function (BayesianART inverts a matrix in each)
+            if sum(len(q) for q in Qs) * len(owner.W) * (2 if cls == "BayesianART" else 1) > ULP_BUDGET:
+                break
+        Q = np.vstack(Qs)
+        rep = dict(rep, segments=segs, query=Q.tolist())
+        W0 = [np.array(w, dtype=float).copy() for w in owner.W]
+        try:
+            with quiet():
+                p = as_cols(est.predict(Q))[:, 0]
+                pa = np.asarray(est.predict_ab(Q)[0]) if host in ("SimpleARTMAP", "ARTMAP") else None
+                Ts = [_nb_acts(owner, x) for x in Q]
+        except Exception as e:
+            cov.hit(f"ulp-scan:predict-raised:{sig}:{exc_enum(e)}")
+            ctx.issue("violation", f"{sig}.predict:{exc_enum(e)}", f"predict raised {e!r} on rows between two valid rows", rep)
+            continue
+        if len(W0) != len(owner.W) or not all(np.array_equal(u, np.asarray(v, dtype=float), equal_nan=True) for u, v in zip(W0, owner.W)):
+            ctx.issue("violation", f"{sig}.predict:mutates-weights", "stored weights changed during predict", rep)
+        if cls in ("GaussianART", "BayesianART"):
+            tot = sum(float(w[-1]) for w in owner.W)
+            shares = set(float(w[-1]) for w in owner.W)
+            cov.hit("ulp-scan:total-sample-count-%s" % ("power-of-two" if tot > 0 and np.frexp(tot)[0] == 0.5 else "not-a-power-of-two"))
+            if len(shares) > 1:
+                cov.hit("ulp-scan:unequal-sample-shares")
+        tight = False
+        for k, T in enumerate(Ts):
+            best = _nb_first_argmax(T)
+            if best is None:
+                cov.hit("ulp-scan:nan-activation")
+                continue
+            top = T[best]
+            below = float(np.nextafter(top, -np.inf))
+            tied = [j for j in range(best + 1, len(T)) if T[j] == top]
+            one_older = [j for j in range(best) if T[j] == below]
+            one_newer = [j for j in range(best + 1, len(T)) if T[j] == below]
+            if tied:
+                tight = True
+                cov.hit("ulp-scan:exact-tie-of-the-two-best")
+            if one_older:
+                tight = True
+                cov.hit("ulp-scan:newer-leads-older-by-one-ulp")
+            if one_newer:
+                tight = True
+                cov.hit("ulp-scan:older-leads-newer-by-one-ulp")
+            how = ("an exact tie with newer category %d" % tied[0] if tied else
+                   "older category %d is one ulp behind" % one_older[0] if one_older else
+                   "newer category %d is one ulp behind" % one_newer[0] if one_newer else "no tie within one ulp")
+            if pa is not None and int(pa[k]) != best:
+                ctx.issue("violation", f"{sig}.predict_ab:not-first-argmax:ulp-near-tie",
+                          f"row {k} = {Q[k].tolist()!r}: A-side category {int(pa[k])} (activation {float(T[int(pa[k])]).hex()}) "
+                          f"but the oldest category of maximal activation {float(top).hex()} is {best} ({how}); "
+                          f"activations {[float(t).hex() for t in T]}", dict(rep, row=k))
+                break
+            if int(p[k]) != label_of(best):
+                ctx.issue("violation", f"{sig}.predict:not-first-argmax:ulp-near-tie",
+                          f"row {k} = {Q[k].tolist()!r}: predicted {int(p[k])}, expected {label_of(best)} = label of category "
+                          f"{best}, the oldest category of maximal activation {float(top).hex()} ({how}); "
+                          f"activations {[float(t).hex() for t in T]}", dict(rep, row=k))
+                break
+        cov.hit(f"ulp-scan:{'bare' if host == 'bare' else 'hosted:' + host}:{cls}")
+        cov.case(("ulp", spec, rep["X"], lo), tight)
